@@ -198,7 +198,13 @@ func checkPath(t vlib.TB, path string, ms []mapping, regexps []string, flagPath,
 	for r := range results {
 		// the prefix rule: a protected directory prefix never comes through
 		for _, m := range ms {
-			if under(path, m.Prefix) && under(r, m.Prefix) && !under(m.Repl, m.Prefix) {
+			leadsBack := false // some registered replacement points (back) under this very prefix: then it may legitimately show
+			for _, m2 := range ms {
+				if under(m2.Repl, m.Prefix) {
+					leadsBack = true
+				}
+			}
+			if under(path, m.Prefix) && under(r, m.Prefix) && !leadsBack {
 				leaked := true
 				for s := range set { // unless the documented replacements themselves lead there
 					if s == r {
